@@ -65,7 +65,7 @@ sim::Json GenOpts::to_json() const {
     j["allow_msw"] = allow_msw; j["allow_history"] = allow_history; j["allow_groups"] = allow_groups;
     j["restart_safe_conditions"] = restart_safe_conditions; j["nonmidnight"] = nonmidnight; j["step_events"] = step_events;
     j["action_inline_safe"] = action_inline_safe; j["vector_target"] = vector_target; j["units"] = units;
-    j["fmtout"] = fmtout; j["unifout"] = unifout; j["esmry"] = esmry; j["rptonly"] = rptonly; j["sumthin"] = sumthin; j["date_conditions"] = date_conditions; j["nested_parens"] = nested_parens; j["stop_safe"] = stop_safe; j["weltarg_safe"] = weltarg_safe; j["cond_well_bias"] = cond_well_bias; j["min_wells"] = min_wells; j["reparent_groups"] = reparent_groups;
+    j["fmtout"] = fmtout; j["unifout"] = unifout; j["esmry"] = esmry; j["rptonly"] = rptonly; j["sumthin"] = sumthin; j["date_conditions"] = date_conditions; j["nested_parens"] = nested_parens; j["stop_safe"] = stop_safe; j["weltarg_safe"] = weltarg_safe; j["cond_well_bias"] = cond_well_bias; j["min_wells"] = min_wells; j["reparent_groups"] = reparent_groups; j["late_edits"] = late_edits;
     return j;
 }
 GenOpts GenOpts::from_json(const Json& j) {
@@ -77,7 +77,7 @@ GenOpts GenOpts::from_json(const Json& j) {
     o.step_events = j.getb("step_events", o.step_events); o.action_inline_safe = j.getb("action_inline_safe", o.action_inline_safe);
     o.vector_target = static_cast<int>(j.geti("vector_target", 0)); o.units = j.gets("units", "");
     o.fmtout = static_cast<int>(j.geti("fmtout", -1)); o.unifout = static_cast<int>(j.geti("unifout", -1)); o.esmry = j.getb("esmry", false);
-    o.rptonly = j.getb("rptonly", false); o.sumthin = j.getb("sumthin", false); o.date_conditions = j.getb("date_conditions", o.date_conditions); o.nested_parens = j.getb("nested_parens", o.nested_parens); o.stop_safe = j.getb("stop_safe", o.stop_safe); o.cond_well_bias = j.getd("cond_well_bias", 0.0); o.min_wells = static_cast<int>(j.geti("min_wells", 1)); o.reparent_groups = j.getb("reparent_groups", false); o.weltarg_safe = j.getb("weltarg_safe", false);   // absent in replay files written before the knob existed
+    o.rptonly = j.getb("rptonly", false); o.sumthin = j.getb("sumthin", false); o.date_conditions = j.getb("date_conditions", o.date_conditions); o.nested_parens = j.getb("nested_parens", o.nested_parens); o.stop_safe = j.getb("stop_safe", o.stop_safe); o.cond_well_bias = j.getd("cond_well_bias", 0.0); o.min_wells = static_cast<int>(j.geti("min_wells", 1)); o.reparent_groups = j.getb("reparent_groups", false); o.late_edits = j.getb("late_edits", false); o.weltarg_safe = j.getb("weltarg_safe", false);   // absent in replay files written before the knob existed
     return o;
 }
 
@@ -380,7 +380,16 @@ struct Gen {
             for (int e = 0; e < ne; ++e) {
                 double u = rng.unit(); Kw k;
                 const WellDef& w = m.wells[rng.below(m.wells.size())];
-                if (o.reparent_groups && u < 0.12) { k = reparent(false); if (k.recs.empty()) { k.name = "WEFAC"; k.recs.push_back({q(w.name), num(efac())}); } }
+                if (o.late_edits && rng.chance(0.4)) {
+                    const double v = rng.unit(); const double diam = m.units == "FIELD" ? 0.5 : m.units == "LAB" ? 10 : 0.2;
+                    if (v < 0.3) { k.name = "WPIMULT"; k.recs.push_back({q(w.name), num(std::round(rng.real(0.25, 2.5) * 100) / 100)}); if (rng.chance(0.4)) { k.recs.back().push_back("2*"); k.recs.back().push_back(std::to_string(static_cast<int>(rng.range(w.k1, w.k2)))); } }
+                    else if (v < 0.55 && w.msw) { k.name = "WSEGVALV"; const int nseg = w.k2 - w.k1 + 2; const int nrec = static_cast<int>(rng.range(1, 2));
+                        for (int r2 = 0; r2 < nrec; ++r2) k.recs.push_back({q(w.name), std::to_string(static_cast<int>(rng.range(2, nseg))), num(std::round(rng.real(0.4, 0.95) * 100) / 100), num(0.785 * diam * diam * std::round(rng.real(0.1, 0.9) * 16) / 16)}); }
+                    else if (v < 0.75) { k.name = "COMPDAT"; const int kk = static_cast<int>(rng.range(w.k1, w.k2)); k.recs.push_back({q(w.name), std::to_string(w.i), std::to_string(w.j), std::to_string(kk), std::to_string(kk), q(rng.chance(0.8) ? "OPEN" : "SHUT"), "2*", num(diam * (rng.chance(0.5) ? 1.0 : 1.5)), "1*", num(std::round(rng.real(0, 4) * 4) / 4)}); }
+                    else if (v < 0.88 && w.kind == "OPROD") { k.name = "WECON"; k.recs.push_back({q(w.name), num(std::round(rng.real(1, 50))), "1*", num(std::round(rng.real(0.5, 0.95) * 100) / 100), "2*", q("WELL")}); }
+                    else { k.name = "WTEST"; k.recs.push_back({q(w.name), num(static_cast<double>(rng.range(1, 30))), q("PE")}); }
+                }
+                else if (o.reparent_groups && u < 0.12) { k = reparent(false); if (k.recs.empty()) { k.name = "WEFAC"; k.recs.push_back({q(w.name), num(efac())}); } }
                 else if (u < 0.2) { k.name = "WEFAC"; k.recs.push_back({q(w.name), num(efac())}); }
                 else if (u < 0.32) { k.name = "GEFAC"; k.recs.push_back({q(groups[rng.below(groups.size())]), num(efac())}); }
                 else if (u < 0.5) { k.name = "WELOPEN"; static const char* s3[] = {"SHUT", "OPEN", "STOP"}; k.recs.push_back({q(w.name), q(s3[rng.below(3)])}); }
@@ -547,4 +556,12 @@ std::string deck_text(const Model& m, const DeckOpts& d) {
     return o.str();
 }
 
+} // namespace srun
+
+namespace srun {
+void kw_histogram(const Model& m, std::map<std::string, long>& out) {
+    for (auto& k : m.block0) ++out["kw." + k.name];
+    for (auto& a : m.actions0) for (auto& k : a.body) ++out["kw.action." + k.name];
+    for (auto& s : m.steps) { for (auto& k : s.kws) ++out["kw.late." + k.name]; for (auto& a : s.actions) for (auto& k : a.body) ++out["kw.action." + k.name]; }
+}
 } // namespace srun
